@@ -127,7 +127,10 @@ static Bytes buildPayload(uint8_t msgType, const WireMsg& m)
                         b[7] = static_cast<uint8_t>(std::min<size_t>(255, f.data.size() + 1 + m.tweak % 8));
                     break;
                 case model::Kind::ethernet:
-                    wire::set16(b.data() + 4, static_cast<uint16_t>(std::min<size_t>(65535, f.data.size() + 1 + m.tweak)));
+                    if (m.tweak >= 200)
+                        wire::set16(b.data() + 4, static_cast<uint16_t>(0xFFFF - (m.tweak - 200) % 40));  // close to the 16-bit wrap
+                    else
+                        wire::set16(b.data() + 4, static_cast<uint16_t>(std::min<size_t>(65535, f.data.size() + 1 + m.tweak)));
                     break;
                 case model::Kind::analog:
                     b[1] = static_cast<uint8_t>((b[1] & ~3) | (2 + m.tweak % 2));  // undefined sample type (don't care)
@@ -140,6 +143,8 @@ static Bytes buildPayload(uint8_t msgType, const WireMsg& m)
                         int which = m.tweak % 5;
                         size_t lenOff = v.off[which] - 2;
                         size_t beyond = b.size() - v.off[which] + 1 + (m.tweak / 5);
+                        if (m.tweak >= 200)
+                            beyond = 0xFFFF - (m.tweak - 200) % 40;
                         wire::set16(b.data() + lenOff, static_cast<uint16_t>(std::min<size_t>(65535, beyond)));
                     }
                     break;
